@@ -687,20 +687,130 @@ Proof.
     + repeat split; auto; try discriminate; try lia. intro; contradiction.
 Qed.
 
-Lemma step_inv : forall d o, sty_inv d -> sty_inv (step d o).
+(* the part of the invariant that also holds in the middle of a transition *)
+Definition pre_inv (d : dstate) : Prop :=
+  forall n, (nstyle (st_nodes (d_sty d)) n = 1 -> In n (d_cur d))
+         /\ (nstyle (st_nodes (d_sty d)) n = 2 -> d_last d = Some n)
+         /\ nstyle (st_nodes (d_sty d)) n <= 2.
+
+Lemma sty_pre : forall d, sty_inv d -> pre_inv d.
+Proof. intros d I n. destruct (I n) as [A [B C]]. repeat split; auto. apply A. Qed.
+
+Lemma activate_inv : forall d, pre_inv d ->
+  sty_inv (mkD (d_m d) (d_cur d) (mkS (set_nodes (d_cur d) 1 (st_nodes (d_sty d))) (st_edges (d_sty d))) (d_last d)).
 Proof.
-  intros d o I. destruct o; simpl; try apply fresh_inv.
-  destruct (d_cur d) as [|leaf [|x r]]; auto.
-  destruct (pick (held (d_m d)) e leaf) as [t|]; auto.
-  destruct (t_dst t); auto. apply change_inv.
+  intros d I n. destruct (I n) as [A [B C]]. simpl. rewrite nstyle_set.
+  destruct (mem n (d_cur d)) eqn:E.
+  - apply mem_In in E. repeat split; auto; try discriminate.
+  - repeat split; auto. intro H. apply mem_In in H. congruence.
 Qed.
 
-Lemma run_inv : forall m ops, sty_inv (run m ops).
+Lemma find_node_inert : forall acts d f s,
+  forallb (inert_tree acts) f = true -> find_node f d = Some s -> inert_tree acts s = true.
 Proof.
-  intros m ops. unfold run.
-  assert (G : forall d, sty_inv d -> sty_inv (fold_left step ops d)).
-  { induction ops as [|o ops IH]; intros d I; simpl; auto. apply IH. apply step_inv. auto. }
-  apply G. unfold init_state. apply fresh_inv.
+  intros acts. induction d as [|i r IH]; intros f s F H; [discriminate|].
+  simpl in H. destruct (find (fun s0 => Nat.eqb (s_id s0) i) f) as [s0|] eqn:E; [|discriminate].
+  apply find_some in E. destruct E as [E _]. rewrite forallb_forall in F. pose proof (F s0 E) as I0.
+  destruct r as [|j r'].
+  - inversion H; subst. auto.
+  - apply (IH (s_kids s0)); auto. destruct s0. simpl in I0. apply andb_true_iff in I0. simpl. tauto.
+Qed.
+
+Lemma exit_cbs_inert : forall m n c, exit_inert m = true ->
+  In c (cbs_of (m_states m) n s_exit) -> act_of (m_acts m) c = None.
+Proof.
+  intros m n c I H. unfold cbs_of in H. destruct (find_node (m_states m) n) as [s|] eqn:E; [|contradiction].
+  pose proof (find_node_inert _ _ _ _ I E) as J. destruct s. simpl in *.
+  apply andb_true_iff in J. destruct J as [J _]. rewrite forallb_forall in J. specialize (J c H).
+  destruct (act_of (m_acts m) c); [discriminate|reflexivity].
+Qed.
+
+Lemma run_cbs_inert : forall call acts cs st, (forall c, In c cs -> act_of acts c = None) -> run_cbs call acts cs st = st.
+Proof.
+  intros call acts. induction cs as [|c r IH]; intros st H; [reflexivity|].
+  simpl. rewrite (H c) by (left; auto). apply IH. intros; apply H; right; auto.
+Qed.
+
+Definition call_ok (call : caller) : Prop :=
+  match call with
+  | None => True
+  | Some f => forall b d e, exit_inert (d_m d) = true -> pre_inv d ->
+                d_m (fst (f b d e)) = d_m d /\ pre_inv (fst (f b d e))
+  end.
+
+Lemma run_cbs_pres : forall call acts m, call_ok call -> exit_inert m = true ->
+  forall cs st, d_m (fst st) = m -> pre_inv (fst st) ->
+  d_m (fst (run_cbs call acts cs st)) = m /\ pre_inv (fst (run_cbs call acts cs st)).
+Proof.
+  intros call acts m OK I. induction cs as [|c r IH]; intros st Hm Hp; [auto|].
+  simpl. apply IH.
+  - destruct (act_of acts c); auto. destruct call as [f|]; auto. destruct (snd st); auto.
+    simpl in OK. rewrite <- Hm in I. destruct (OK n (fst st) s I Hp) as [A _]. congruence.
+  - destruct (act_of acts c); auto. destruct call as [f|]; auto. destruct (snd st); auto.
+    simpl in OK. rewrite <- Hm in I. destruct (OK n (fst st) s I Hp) as [_ B]. auto.
+Qed.
+
+Lemma fire_body_ok : forall call b d e, call_ok call -> exit_inert (d_m d) = true -> pre_inv d ->
+  let r := fst (fire_body call b d e) in
+  d_m r = d_m d /\ pre_inv r /\ (r = d \/ sty_inv r).
+Proof.
+  intros call b d e OK I P. unfold fire_body.
+  destruct (d_cur d) as [|leaf [|x rr]]; try (simpl; auto).
+  destruct (pick (held (d_m d)) e leaf) as [t|]; [|simpl; auto].
+  destruct (t_dst t) as [dst|]; [|simpl; auto].
+  rewrite (run_cbs_inert call (m_acts (d_m d)) (cbs_of (m_states (d_m d)) (t_src t) s_exit))
+    by (intros c Hc; eapply exit_cbs_inert; eauto).
+  cbn [fst snd d_m d_sty d_last].
+  match goal with |- context [run_cbs call ?A ?C ?S] => remember (run_cbs call A C S) as st3 eqn:E3 end.
+  assert (G : d_m (fst st3) = d_m d /\ pre_inv (fst st3)).
+  { subst st3. apply run_cbs_pres; auto.
+    intro n. simpl. destruct (nl_eqb n (t_src t)) eqn:En.
+    - apply nl_eqb_eq in En. subst. repeat split; auto; try discriminate.
+    - repeat split; auto; try discriminate. }
+  destruct G as [G1 G2]. pose proof (activate_inv (fst st3) G2) as A.
+  simpl. split; [exact G1|]. split; [apply sty_pre; exact A|]. right. exact A.
+Qed.
+
+Lemma fire_ok : forall fuel, call_ok (Some (fire fuel)).
+Proof.
+  assert (I0 : call_ok None) by exact Logic.I.
+  induction fuel as [|f IH]; intros b d e I P.
+  - destruct (fire_body_ok None b d e I0 I P) as [A [B _]]. split; [exact A|exact B].
+  - destruct (fire_body_ok (Some (fire f)) b d e IH I P) as [A [B _]]. split; [exact A|exact B].
+Qed.
+
+Lemma fire_top : forall fuel b d e, exit_inert (d_m d) = true -> sty_inv d ->
+  d_m (fst (fire fuel b d e)) = d_m d /\ sty_inv (fst (fire fuel b d e)).
+Proof.
+  intros fuel b d e I S.
+  assert (G : let r := fst (fire fuel b d e) in d_m r = d_m d /\ pre_inv r /\ (r = d \/ sty_inv r)).
+  { destruct fuel as [|f].
+    - apply (fire_body_ok None b d e Logic.I I (sty_pre d S)).
+    - apply (fire_body_ok (Some (fire f)) b d e (fire_ok f) I (sty_pre d S)). }
+  destruct G as [A [_ [C|C]]]; split; auto. rewrite C. auto.
+Qed.
+
+Lemma step_inv : forall d o, exit_inert (d_m d) = true -> op_inert (m_acts (d_m d)) o = true -> sty_inv d ->
+  sty_inv (step d o) /\ exit_inert (d_m (step d o)) = true /\ m_acts (d_m (step d o)) = m_acts (d_m d).
+Proof.
+  intros d o I O S. destruct o; simpl.
+  - destruct (fire_top (m_budget (d_m d)) (m_budget (d_m d)) d e I S) as [A B]. rewrite A. auto.
+  - split; [apply fresh_inv|]. split; auto. unfold exit_inert in *. simpl. rewrite forallb_app. rewrite I. simpl.
+    simpl in O. rewrite O. reflexivity.
+  - split; [apply fresh_inv|]. auto.
+  - split; [apply fresh_inv|]. auto.
+Qed.
+
+Lemma run_inv : forall m ops, exit_inert m = true -> forallb (op_inert (m_acts m)) ops = true -> sty_inv (run m ops).
+Proof.
+  intros m ops I O. unfold run.
+  assert (G : forall d, sty_inv d -> exit_inert (d_m d) = true -> m_acts (d_m d) = m_acts m ->
+                        sty_inv (fold_left step ops d)).
+  { induction ops as [|o ops IH]; intros d S Id Ad; simpl; auto.
+    simpl in O. apply andb_true_iff in O. destruct O as [O1 O2].
+    rewrite <- Ad in O1. destruct (step_inv d o Id O1 S) as [A [B C]].
+    apply IH; auto. congruence. }
+  apply G; auto. unfold init_state. apply fresh_inv.
 Qed.
 
 Lemma proj_edges_nil : forall {B} (P : line -> list B) o ts,
@@ -727,13 +837,14 @@ Proof.
 Qed.
 
 Lemma styles_thm : forall m ops, let d := run m ops in
+  exit_inert m = true -> forallb (op_inert (m_acts m)) ops = true ->
   wf_kind (m_opts (d_m d)) (m_states (d_m d)) = true ->
   (forall n, In (ClassOf n 1) (view d) -> In n (d_cur d))
   /\ (forall n, In (ClassOf n 2) (view d) -> d_last d = Some n)
   /\ (forall n v, In (ClassOf n v) (view d) -> v <= 2)
   /\ (forall s, In s (m_states (d_m d)) -> In [s_id s] (d_cur d) -> In (ClassOf [s_id s] 1) (view d)).
 Proof.
-  intros m ops d W. pose proof (run_inv m ops) as I. fold d in I.
+  intros m ops d EI OI W. pose proof (run_inv m ops EI OI) as I. fold d in I.
   assert (C : forall n v, In (ClassOf n v) (view d) -> nstyle (st_nodes (d_sty d)) n = v).
   { intros n v H. apply in_classes in H. unfold view in H. rewrite classes_view in H by auto.
     apply in_map_iff in H. destruct H as [s [E _]]. inversion E; subst. reflexivity. }
